@@ -879,3 +879,158 @@ def s_rev_struct(ev, D, N): return SV(BOOL, rev_b(D.z, N.z))
 def s_np_struct(ev, D, N): return SV(BOOL, np_b(D.z, N.z))
 @spec('nap')
 def s_nap(ev, D, w): return SV(BOOL, nap(dfa_delta_val(D), rec_get(D, 'F').z, rec_get(D, 'q0').z, w.z))
+
+
+# ====================================================================== runs of an epsilon-NFA from a set of states; embedding of one NFA in another (C18)
+from . import sets as _Sets
+def U(a, b): return _Sets.union(SV(SET(ATOM), a), SV(SET(ATOM), b)).z
+EMPTYA = z3.K(Atom, False)
+def single(q): return Store(EMPTYA, q, True)
+NS = Function('NS', ViewN, Atom, SetA, Word, SetA)        # (view, eps, S, w): states reachable from some state of S by reading w
+axiom('nfax', 'def', 'NS-nil', ForAll([_V, _e, _S], NS(_V, _e, _S, Word.nil) == Eclo(_V, _e, _S)))
+axiom('nfax', 'def', 'NS-snoc', ForAll([_V, _e, _S, _w, _a], NS(_V, _e, _S, Word.snoc(_w, _a)) == Eclo(_V, _e, move(_V, NS(_V, _e, _S, _w), _a))))
+axiom('nfax', 'lemma', 'Nhat-is-NS', ForAll([_V, _e, _q, _w], Nhat(_V, _e, _q, _w) == NS(_V, _e, single(_q), _w)))
+axiom('nfax', 'lemma', 'Eclo-union', ForAll([_V, _e, _S, _T], Eclo(_V, _e, U(_S, _T)) == U(Eclo(_V, _e, _S), Eclo(_V, _e, _T))))
+axiom('nfax', 'lemma', 'move-union', ForAll([_V, _S, _T, _a], move(_V, U(_S, _T), _a) == U(move(_V, _S, _a), move(_V, _T, _a))))
+axiom('nfax', 'lemma', 'move-empty', ForAll([_V, _a], move(_V, EMPTYA, _a) == EMPTYA))
+axiom('nfax', 'lemma', 'Eclo-empty-eq', ForAll([_V, _e], Eclo(_V, _e, EMPTYA) == EMPTYA))
+axiom('nfax', 'lemma', 'NS-union', ForAll([_V, _e, _S, _T, _w], NS(_V, _e, U(_S, _T), _w) == U(NS(_V, _e, _S, _w), NS(_V, _e, _T, _w))))
+axiom('nfax', 'lemma', 'NS-empty', ForAll([_V, _e, _w], NS(_V, _e, EMPTYA, _w) == EMPTYA))
+axiom('nfax', 'lemma', 'eclo-move-pw', ForAll([_V, _e, _S, _a, _x], Select(Eclo(_V, _e, move(_V, _S, _a)), _x) ==
+      z3.Exists([_y, _q], And(Select(_S, _q), Select(Select(_V, mkKey2(_q, _a)), _y), Select(Eclo(_V, _e, single(_y)), _x)))))
+axiom('nfax', 'lemma', 'NS-closed', ForAll([_V, _e, _S, _w], Eclo(_V, _e, NS(_V, _e, _S, _w)) == NS(_V, _e, _S, _w)))
+
+_VR, _VN = Consts('VR VN', ViewN); _eR, _eN = Consts('eR eN', Atom); _Qs, _Sg = Consts('Qs Sg', SetA)
+
+
+def embed_pred(VR, eR, VN, eN, Q, Sg):
+    """inside the region Q the automaton (VR, eR) moves exactly like (VN, eN) (epsilon relabelled), Q is closed under VN's moves,
+    and from Q the automaton VR has no moves on letters outside Sg"""
+    x, y, a = fresh_z('x', Atom), fresh_z('y', Atom), fresh_z('a', Atom)
+    return And(ForAll([x, y], Implies(Select(Q, x), Select(Select(VR, mkKey2(x, eR)), y) == Select(Select(VN, mkKey2(x, eN)), y))),
+               ForAll([x, a, y], Implies(And(Select(Q, x), Select(Sg, a)), Select(Select(VR, mkKey2(x, a)), y) == Select(Select(VN, mkKey2(x, a)), y))),
+               ForAll([x, a, y], Implies(And(Select(Q, x), Select(Select(VN, mkKey2(x, a)), y)), Select(Q, y))),
+               ForAll([x, a, y], Implies(And(Select(Q, x), Not(Select(Sg, a)), a != eR), Not(Select(Select(VR, mkKey2(x, a)), y)))),
+               Not(Select(Sg, eR)), Not(Select(Sg, eN)))
+
+
+embed_b = Function('embed', ViewN, Atom, ViewN, Atom, SetA, SetA, BoolSort())
+axiom('nfax', 'def', 'embed-def', ForAll([_VR, _eR, _VN, _eN, _Qs, _Sg], embed_b(_VR, _eR, _VN, _eN, _Qs, _Sg) == embed_pred(_VR, _eR, _VN, _eN, _Qs, _Sg)))
+def _sub(A, B):
+    x = fresh_z('x', Atom); return ForAll([x], Implies(Select(A, x), Select(B, x)))
+axiom('nfax', 'lemma', 'embed-eclo', ForAll([_VR, _eR, _VN, _eN, _Qs, _Sg, _S], Implies(And(embed_b(_VR, _eR, _VN, _eN, _Qs, _Sg), _sub(_S, _Qs)),
+      And(Eclo(_VR, _eR, _S) == Eclo(_VN, _eN, _S), _sub(Eclo(_VN, _eN, _S), _Qs))), patterns=[z3.MultiPattern(embed_b(_VR, _eR, _VN, _eN, _Qs, _Sg), Eclo(_VR, _eR, _S))]))
+axiom('nfax', 'lemma', 'embed-move', ForAll([_VR, _eR, _VN, _eN, _Qs, _Sg, _S, _a], Implies(And(embed_b(_VR, _eR, _VN, _eN, _Qs, _Sg), _sub(_S, _Qs), _a != _eR),
+      And(move(_VR, _S, _a) == If(Select(_Sg, _a), move(_VN, _S, _a), EMPTYA), _sub(move(_VN, _S, _a), _Qs))), patterns=[z3.MultiPattern(embed_b(_VR, _eR, _VN, _eN, _Qs, _Sg), move(_VR, _S, _a))]))
+_SgR = Const('SgR', SetA)
+axiom('nfax', 'lemma', 'embed-sim', ForAll([_VR, _eR, _VN, _eN, _Qs, _Sg, _SgR, _S, _w], Implies(And(embed_b(_VR, _eR, _VN, _eN, _Qs, _Sg), _sub(_S, _Qs), over(_SgR, _w), Not(Select(_SgR, _eR))),
+      And(NS(_VR, _eR, _S, _w) == If(over(_Sg, _w), NS(_VN, _eN, _S, _w), EMPTYA), _sub(NS(_VR, _eR, _S, _w), _Qs))),
+      patterns=[z3.MultiPattern(embed_b(_VR, _eR, _VN, _eN, _Qs, _Sg), NS(_VR, _eR, _S, _w), over(_SgR, _w))]))
+
+
+def view_wf(N):
+    """what nfa_wf says about the total view: moves stay inside Q and are labelled by Sigma or epsilon"""
+    x, a, y = fresh_z('x', Atom), fresh_z('a', Atom), fresh_z('y', Atom)
+    Q, Sg = rec_get(N, 'Q').z, rec_get(N, 'Sigma').z
+    return And(ForAll([x, a, y], Implies(Select(Select(nfa_view(N), mkKey2(x, a)), y), And(Select(Q, x), Select(Q, y), Or(Select(Sg, a), a == _eps(N))))),
+               Not(Select(Sg, _eps(N))), Select(Q, rec_get(N, 'q0').z), _sub(rec_get(N, 'F').z, Q))
+
+
+def union_struct(N1, N2, R):
+    """R has the structure nfa_union gives (second operand's epsilon moves relabelled to the first operand's epsilon)"""
+    V1, V2, VR = nfa_view(N1), nfa_view(N2), nfa_view(R); e1, e2 = _eps(N1), _eps(N2); r0 = rec_get(R, 'q0').z
+    Q1, Q2 = rec_get(N1, 'Q').z, rec_get(N2, 'Q').z
+    q, b, y = fresh_z('q', Atom), fresh_z('b', Atom), fresh_z('y', Atom)
+    return And(s_nfa_wf(None, N1).z, s_nfa_wf(None, N2).z, ForAll([q], Not(And(Select(Q1, q), Select(Q2, q)))), Not(Select(rec_get(N2, 'Sigma').z, e1)),
+               _eps(R) == e1, Not(Select(Q1, r0)), Not(Select(Q2, r0)),
+               ForAll([b], Select(rec_get(R, 'Sigma').z, b) == Or(Select(rec_get(N1, 'Sigma').z, b), Select(rec_get(N2, 'Sigma').z, b))),
+               ForAll([q], Select(rec_get(R, 'F').z, q) == Or(Select(rec_get(N1, 'F').z, q), Select(rec_get(N2, 'F').z, q))),
+               ForAll([y], Select(Select(VR, mkKey2(r0, e1)), y) == Or(y == rec_get(N1, 'q0').z, y == rec_get(N2, 'q0').z)),
+               ForAll([b, y], Implies(b != e1, Not(Select(Select(VR, mkKey2(r0, b)), y)))),
+               ForAll([q, b, y], Implies(Select(Q1, q), Select(Select(VR, mkKey2(q, b)), y) == Or(And(b == e1, Select(Select(V1, mkKey2(q, e1)), y)), And(b != e1, Select(Select(V1, mkKey2(q, b)), y))))),
+               ForAll([q, b, y], Implies(Select(Q2, q), Select(Select(VR, mkKey2(q, b)), y) == Or(And(b == e1, Select(Select(V2, mkKey2(q, e2)), y)), And(b != e2, Select(Select(V2, mkKey2(q, b)), y))))))
+
+
+def accepts_z(N, w):
+    x = fresh_z('x', Atom)
+    return z3.Exists([x], And(Select(Nhat(nfa_view(N), _eps(N), rec_get(N, 'q0').z, w), x), Select(rec_get(N, 'F').z, x)))
+
+
+union_b = Function('union_struct', _NFAs, _NFAs, _NFAs, BoolSort())
+_N1, _N2, _NR = Consts('N1 N2 NR', _NFAs)
+axiom('nfax', 'def', 'union_struct-def', ForAll([_N1, _N2, _NR], union_b(_N1, _N2, _NR) == union_struct(SV(REC('NFA'), _N1), SV(REC('NFA'), _N2), SV(REC('NFA'), _NR))))
+def _union_sim():
+    N1, N2, R = [SV(REC('NFA'), z_) for z_ in (_N1, _N2, _NR)]
+    return ForAll([_N1, _N2, _NR, _w], Implies(And(union_b(_N1, _N2, _NR), over(rec_get(R, 'Sigma').z, _w)),
+                  accepts_z(R, _w) == Or(And(over(rec_get(N1, 'Sigma').z, _w), accepts_z(N1, _w)), And(over(rec_get(N2, 'Sigma').z, _w), accepts_z(N2, _w)))))
+axiom('nfax', 'lemma', 'union-sim', _union_sim())
+
+
+@spec('union_struct')
+def s_union_struct(ev, N1, N2, R): return SV(BOOL, union_b(N1.z, N2.z, R.z))
+
+
+# ---------------------------------------------------------------------- concatenation
+acc_b = Function('nfa_acc', _NFAs, Word, BoolSort())            # opaque name for acceptance (hide / reveal)
+axiom('nfax', 'def', 'nfa_acc-def', ForAll([_N1, _w], acc_b(_N1, _w) == accepts_z(SV(REC('NFA'), _N1), _w)))
+def lang_b(Nz, w):
+    """w is a word over the alphabet of N that N accepts"""
+    return And(over(rec_get(SV(REC('NFA'), Nz), 'Sigma').z, w), acc_b(Nz, w))
+
+
+def cat_struct(N1, N2, R):
+    """R has the structure nfa_concatenation gives"""
+    V1, V2, VR = nfa_view(N1), nfa_view(N2), nfa_view(R); e1, e2 = _eps(N1), _eps(N2)
+    Q1, Q2 = rec_get(N1, 'Q').z, rec_get(N2, 'Q').z
+    q, b, y = fresh_z('q', Atom), fresh_z('b', Atom), fresh_z('y', Atom)
+    return And(s_nfa_wf(None, N1).z, s_nfa_wf(None, N2).z, ForAll([q], Not(And(Select(Q1, q), Select(Q2, q)))), Not(Select(rec_get(N2, 'Sigma').z, e1)),
+               _eps(R) == e1, rec_get(R, 'q0').z == rec_get(N1, 'q0').z,
+               ForAll([b], Select(rec_get(R, 'Sigma').z, b) == Or(Select(rec_get(N1, 'Sigma').z, b), Select(rec_get(N2, 'Sigma').z, b))),
+               ForAll([q], Select(rec_get(R, 'F').z, q) == Select(rec_get(N2, 'F').z, q)),
+               ForAll([q, b, y], Implies(Select(Q1, q), Select(Select(VR, mkKey2(q, b)), y) ==
+                      Or(And(b == e1, Select(Select(V1, mkKey2(q, e1)), y)), And(b != e1, Select(Select(V1, mkKey2(q, b)), y)), And(b == e1, Select(rec_get(N1, 'F').z, q), y == rec_get(N2, 'q0').z)))),
+               ForAll([q, b, y], Implies(Select(Q2, q), Select(Select(VR, mkKey2(q, b)), y) == Or(And(b == e1, Select(Select(V2, mkKey2(q, e2)), y)), And(b != e2, Select(Select(V2, mkKey2(q, b)), y))))))
+
+
+cat_b = Function('cat_struct', _NFAs, _NFAs, _NFAs, BoolSort())
+axiom('nfax', 'def', 'cat_struct-def', ForAll([_N1, _N2, _NR], cat_b(_N1, _N2, _NR) == cat_struct(SV(REC('NFA'), _N1), SV(REC('NFA'), _N2), SV(REC('NFA'), _NR))))
+# the states of the second operand that the concatenation can be in after reading w: by recursion on w
+Bcat = Function('Bcat', _NFAs, _NFAs, Word, SetA)
+def _n2(N2z): return SV(REC('NFA'), N2z)
+def _E2(N2z, S): return Eclo(nfa_view(_n2(N2z)), _eps(_n2(N2z)), S)
+def _start2(N1z, N2z, w): return If(lang_b(N1z, w), _E2(N2z, single(rec_get(_n2(N2z), 'q0').z)), EMPTYA)
+axiom('nfax', 'def', 'Bcat-nil', ForAll([_N1, _N2], Bcat(_N1, _N2, Word.nil) == _start2(_N1, _N2, Word.nil)))
+axiom('nfax', 'def', 'Bcat-snoc', ForAll([_N1, _N2, _w, _a], Bcat(_N1, _N2, Word.snoc(_w, _a)) ==
+      U(If(Select(rec_get(_n2(_N2), 'Sigma').z, _a), _E2(_N2, move(nfa_view(_n2(_N2)), Bcat(_N1, _N2, _w), _a)), EMPTYA), _start2(_N1, _N2, Word.snoc(_w, _a)))))
+def _cat_eclo():
+    N1, N2, R = [SV(REC('NFA'), z_) for z_ in (_N1, _N2, _NR)]
+    E1 = Eclo(nfa_view(N1), _eps(N1), _S)
+    hit = z3.Exists([_x], And(Select(rec_get(N1, 'F').z, _x), Select(E1, _x)))
+    return ForAll([_N1, _N2, _NR, _S], Implies(And(cat_b(_N1, _N2, _NR), _sub(_S, rec_get(N1, 'Q').z)),
+                  Eclo(nfa_view(R), _eps(N1), _S) == U(E1, If(hit, _E2(_N2, single(rec_get(N2, 'q0').z)), EMPTYA))),
+                  patterns=[z3.MultiPattern(cat_b(_N1, _N2, _NR), Eclo(nfa_view(R), _eps(N1), _S))])
+axiom('nfax', 'lemma', 'cat-eclo', _cat_eclo())
+def _bcat_char():
+    N2 = _n2(_N2); k = _k
+    return ForAll([_N1, _N2, _w, _x], Select(Bcat(_N1, _N2, _w), _x) == z3.Exists([k], And(0 <= k, k <= wlen(_w), lang_b(_N1, take(k, _w)), over(rec_get(N2, 'Sigma').z, drop(k, _w)),
+                  Select(NS(nfa_view(N2), _eps(N2), single(rec_get(N2, 'q0').z), drop(k, _w)), _x))))
+axiom('nfax', 'lemma', 'Bcat-char', _bcat_char())
+def _cat_sim():
+    N1, N2, R = [SV(REC('NFA'), z_) for z_ in (_N1, _N2, _NR)]
+    return ForAll([_N1, _N2, _NR, _w], Implies(And(cat_b(_N1, _N2, _NR), over(rec_get(R, 'Sigma').z, _w)),
+                  NS(nfa_view(R), _eps(N1), single(rec_get(N1, 'q0').z), _w) ==
+                  U(If(over(rec_get(N1, 'Sigma').z, _w), NS(nfa_view(N1), _eps(N1), single(rec_get(N1, 'q0').z), _w), EMPTYA), Bcat(_N1, _N2, _w))))
+axiom('nfax', 'lemma', 'cat-sim', _cat_sim())
+def _cat_lang():
+    N1, N2, R = [SV(REC('NFA'), z_) for z_ in (_N1, _N2, _NR)]; k = _k
+    return ForAll([_N1, _N2, _NR, _w], Implies(And(cat_b(_N1, _N2, _NR), over(rec_get(R, 'Sigma').z, _w)),
+                  acc_b(_NR, _w) == z3.Exists([k], And(0 <= k, k <= wlen(_w), lang_b(_N1, take(k, _w)), lang_b(_N2, drop(k, _w))))))
+axiom('nfax', 'lemma', 'cat-lang', _cat_lang())
+
+
+@spec('cat_struct')
+def s_cat_struct(ev, N1, N2, R): return SV(BOOL, cat_b(N1.z, N2.z, R.z))
+@spec('nfa_lang')
+def s_nfa_lang(ev, N, w): return SV(BOOL, lang_b(N.z, w.z))
+@spec('nfa_acc')
+def s_nfa_acc(ev, N, w): return SV(BOOL, acc_b(N.z, w.z))
